@@ -12,9 +12,8 @@ impl IPFix {
 impl IPFixParser {
 //@ fn src/variable_versions/ipfix.rs - /impl IPFixParser/ parse
 //@   contract: stubs/ipfixparser_parse.rs
-//@   closure 0: p | -> (o: ParsedNetflow) ensures o.remaining@ == p.0@, o.result == NetflowPacket::IPFix(p.1)
-//@   closure 1: - | -> (o: NetflowParseError) ensures o matches NetflowParseError::Partial(pp) && pp.version == 10 && pp.remaining@ =~= packet@
-//@   before "IPFix::parse(packet, self)": broadcast use lemma_cloned_u8;
+//@   prerules: R30
+//@   bodystart: broadcast use lemma_cloned_u8;
 //@ end
 }
 } // verus!
